@@ -27,6 +27,15 @@ func (e unknownStageError) Error() string {
 
 // AddStage adds the given Stage to the Index, with the given path as the key.
 func (idx *Index) AddStage(stg stage.Stage, path string) error {
+	// The Index file holds one Stage path per line (trimmed when read), relative
+	// to the project root; refuse a path that FromFile would not read back.
+	if path != strings.TrimSpace(path) || strings.ContainsAny(path, "\r\n") {
+		return fmt.Errorf("stage path %q cannot be stored in the index", path)
+	}
+	if clean := filepath.Clean(path); filepath.IsAbs(clean) ||
+		clean == ".." || strings.HasPrefix(clean, "../") {
+		return fmt.Errorf("stage %s is outside of the project root", path)
+	}
 	if _, ok := (*idx)[path]; ok {
 		return fmt.Errorf("stage %s already in index", path)
 	}
